@@ -461,7 +461,13 @@ func cmdTranslate(repo, outDir string) int {
 		fmt.Println("translate: code: ", err)
 		return 2
 	}
+	gemMsg, err := writeGemCode(outDir, repo)
+	if err != nil {
+		fmt.Println("translate: gemcode: ", err)
+		return 2
+	}
 	hows := []string{factsMsg, rulesMsg, intMsg, codeMsg}
+	hows = append(hows, gemMsg)
 	for _, p := range predNames {
 		hows = append(hows, p+"="+how[p]+":"+strconv.Itoa(len(tabs[p])))
 	}
